@@ -343,6 +343,9 @@ OBLIGATIONS += [
     _s("D4o.mir", "guards", "run_commit_order", ["C04", "C03"], "commit_changes: on every path the block-number->hash table (the source of the height after a restart) is committed before any versioned table; the first failing commit ends the call with that error and nothing is committed or flushed after it; Ok is only returned after all commits of the complete path",
        "every MIR path of the function (loop-free); callee bodies not entered, each commit may fail independently (unconstrained result); the field of the block-number->hash table is identified from set_block_hash",
        ["db::brc20_prog_database::Brc20ProgDatabase::commit_changes", "db::brc20_prog_database::Brc20ProgDatabase::set_block_hash"]),
+    _s("D3o.mir", "guards", "run_reorg_order", ["C04"], "database reorg: on every path the block-number->hash table (the source of the height after a restart) is rolled back only after every versioned table, nothing is rolled back after a failed roll-back, and no path returns without error with fewer roll-backs than the complete path - so a reorg cut anywhere leaves a height above the target and can be repeated",
+       "every MIR path of the function (loop-free); callee bodies not entered, each roll-back may fail independently (unconstrained result); the field of the block-number->hash table is identified from set_block_hash",
+       ["db::brc20_prog_database::Brc20ProgDatabase::reorg", "db::brc20_prog_database::Brc20ProgDatabase::set_block_hash"]),
     _s("L1", "smt_key", "run_l1", ["C13"], "the representation invariant of a key history admits at most 11 versions (W = 10 read from the crate)",
        "all integer block numbers", ["global::config::MAX_REORG_HISTORY_SIZE"]),
 ]
